@@ -210,6 +210,15 @@ func init() {
 			"shared faces and the round trip centre -> ID are compared exactly (bit for bit / string equality)",
 		},
 		Gen: genC02, Check: checkC02, Classify: classifyC02, Sweep: sweepC02,
+		Related: func(c *CaseC02) []*CaseC02 {
+			var out []*CaseC02
+			for _, b := range []ref.Box{{H: c.Box.H + 1, X: c.Box.X, Y: c.Box.Y, V: c.Box.V + 1, F: c.Box.F}, {H: c.Box.H, X: c.Box.Y, Y: c.Box.X, V: c.Box.V, F: c.Box.F}, {H: c.Box.H, X: c.Box.X, Y: c.Box.Y, V: c.Box.V, F: -c.Box.F - 1}} {
+				if b.Valid() {
+					out = append(out, &CaseC02{Box: b, Spatial: c.Spatial && b.H == b.V})
+				}
+			}
+			return out
+		},
 		SweepScopes: func(tier string) []string {
 			if tier == "quick" {
 				return []string{"a quarter of the 36x36 zoom pairs (plus all h=v) x 5 row/column positions x 4 vertical indices"}
